@@ -25,8 +25,15 @@ def build(repo, tier, seed):
 
     def witness(group, names, seed):
         from harness import cache_search
-        return cache_search.search(seed, faulty=False, switches=True)
-    return {"vcs": vcs + v2 + v3, "syntactic": syn, "undecided": und + u2 + u3 + t_und, "functions": fns, "hashes": hashes, "level": "proof", "witness": witness,
+        return cache_search.search(seed, faulty=False, switches=True, budget=400)
+    # the option-based switches may be given as templates of other options; whether they then behave as their RESOLVED value is outside A-flags and is
+    # checked on the real code on every run (bounded, labelled)
+    from harness import cache_search as _cs
+    bw = _cs.search(seed, faulty=False, switches=True, budget=120 if tier == "quick" else 1500)
+    bounded = [{"what": "feature switches given literally or as templates of other options, and the context-manager variants, over histories of 1-4 evaluations: value unchanged, "
+                        "backend untouched when caching is off, body re-run, effects off, exactly one log record per body run unless logging is off", "bounds": "120 (quick) / 1500 random histories",
+                "cases": 120 if tier == "quick" else 1500}]
+    return {"bounded": bounded, "bounded_witnesses": [("switches:C16(bounded)", bw)] if bw else [], "vcs": vcs + v2 + v3, "syntactic": syn, "undecided": und + u2 + u3 + t_und, "functions": fns, "hashes": hashes, "level": "proof", "witness": witness,
             "trusted_base": ["switch settings are symbolic inputs of the obligations (each LABREA.* flag an arbitrary value with symbolic truthiness), so the cross "
                              "product is covered without enumeration; per evaluation within a history because every obligation is one-step"],
             "assumptions": ["A-flags; the context-manager variants are decided by (a) the AST of cache.disabled()/logging.disabled() naming exactly the _disabled_* handlers and "
